@@ -511,6 +511,11 @@ func SysFaultPart(run *report.Run, st *Setup, cases, injPerCase int, sides map[s
 					return
 				}
 				run.Count("followup_builds_after_syscall_faults", 1)
+				if bad := auditAtRest(cache); bad != "" && judge["audit"] {
+					keep = !run.Violation("followup-after-syscall-fault cache-inconsistent "+strings.Fields(bad)[0]+" "+at, fmt.Sprintf("%s; after the follow-up build (exit %d) the cache at rest is inconsistent: %s", what, obs2.Res.Exit, bad), mkReplay(i, env, obs2)) || keep
+					memoBack()
+					return
+				}
 				for _, v := range vs2 {
 					switch v.Kind {
 					case "bytes", "restore", "exit", "crash", "hang":
